@@ -712,6 +712,24 @@ func gen(a Args, out *Out) {
 		}
 	}
 
+	// 13. heap shapes (see drv.HeapShapes): 8..30 pending timers in many array shapes, each
+	// position in turn cancelled and removed by the worker (the last leaf takes the hole and
+	// may have to move UP as well as down), further timers started, then every tick visited
+	// one by one: each remaining timer on its due tick and in due order.
+	{
+		srng := NewRng(a.Seed*69069 + 13)
+		shapes := 3
+		if a.Thorough() {
+			shapes = 40
+		}
+		for sh := 0; sh < shapes; sh++ {
+			for _, h := range drv.HeapShapes(srng.Fork(), sh) {
+				emit("heap-shapes", h)
+			}
+			out.Count("heap-shapes")
+		}
+	}
+
 	// 9. the REAL worker goroutine with nobody reading Chan() (see drv.Live): every one-shot
 	// timer is delivered exactly once or cancelled, and a timer received from Chan() is no
 	// longer reported by IsScheduled() / counted by Size() — also while the worker is still
